@@ -41,6 +41,36 @@ func extStatusError(e *Env, fr *Frame, fn *ssa.Function, args []Value, rt types.
 	return v
 }
 
+// reflect.TypeFor[T]() and reflect.TypeOf(x): the reflect.Type is a function (rtype!) of the
+// type tag, so TypeOf(x) == TypeFor[T]() exactly when x's dynamic type is T.
+func (e *Env) rtypeTerm(tag string) string {
+	if !e.declared["rtype!"] {
+		e.declared["rtype!"] = true
+		e.sess.Cmd("(declare-fun |rtype!| (Int) Int)")
+		e.sess.Cmd("(assert (forall ((t Int)) (! (> (|rtype!| t) 0) :pattern ((|rtype!| t)))))")
+		e.sess.Cmd("(assert (forall ((a Int) (b Int)) (! (=> (= (|rtype!| a) (|rtype!| b)) (= a b)) :pattern ((|rtype!| a) (|rtype!| b)))))")
+	}
+	return sx("|rtype!|", tag)
+}
+
+func extReflectTypeFor(e *Env, fr *Frame, fn *ssa.Function, args []Value, rt types.Type, st *State) Value {
+	ta := fn.TypeArgs()
+	if len(ta) != 1 {
+		return extNonNil(e, fr, fn, args, rt, st)
+	}
+	e.declIface()
+	return &Iface{T: e.rtypeTerm(e.typeTag(ta[0])), Typ: rt}
+}
+
+func extReflectTypeOf(e *Env, fr *Frame, fn *ssa.Function, args []Value, rt types.Type, st *State) Value {
+	iv, ok := args[0].(*Iface)
+	if !ok {
+		return extNonNil(e, fr, fn, args, rt, st)
+	}
+	e.declIface()
+	return &Iface{T: mkIte(mkEq(iv.T, "0"), "0", e.rtypeTerm(sx("dyntag", iv.T))), Typ: rt}
+}
+
 var externs map[string]externFn
 
 func init() {
@@ -83,6 +113,8 @@ func init() {
 	"(*strings.Builder).Write":       extBuilderWrite,
 	"crypto/sha256.Sum256":           extSha256Sum,
 	"crypto/sha256.New":              extNonNil,
+	"reflect.TypeFor":                extReflectTypeFor,
+	"reflect.TypeOf":                 extReflectTypeOf,
 	"google.golang.org/protobuf/types/known/timestamppb.New":          extTimestampNew,
 	"(*google.golang.org/protobuf/types/known/timestamppb.Timestamp).AsTime": extTimestampAsTime,
 	"strconv.Itoa":                   extNoop,
